@@ -60,4 +60,28 @@ def split (p : Preds) (guarded : Bool) (s : List Char) : Option (List (List Char
   | none => none
   | some gs => (fixup p gs).map (·.filter (fun g => !g.isEmpty))
 
+/-- `makeCase(linker, transWord)`: split, drop single graphic non-alphanumeric words, transform and
+    join.  `trans`, `dropWord` stand for `strings.ToLower/ToUpper`, `cases.Title`, the `ID` special
+    case and the `unicode.IsGraphic/IsLetter/IsDigit` test — total library functions. -/
+def makeCase (p : Preds) (guarded : Bool) (linker : List Char) (trans : List Char → Nat → List Char)
+    (dropWord : List Char → Bool) (s : List Char) : Option (List Char) :=
+  (split p guarded s).map fun ws =>
+    let kept := ws.filter (fun w => !dropWord w)
+    ((kept.zipIdx.map fun (w, i) => trans w i).intersperse linker).flatten
+
+/-- `Split` as the Go function sees its argument: bytes that may not be valid UTF-8 -/
+def splitBytes (p : Preds) (guarded : Bool) (decode : List UInt8 → Option (List Char)) (bs : List UInt8) :
+    Option (List (List UInt8) ⊕ List (List Char)) :=
+  match decode bs with
+  | none => some (.inl [bs])                      -- not valid UTF-8: the whole string, one word
+  | some s => (split p guarded s).map .inr
+
+/-- the drop rule of `makeCase`: a word of exactly one byte whose byte is a graphic rune that is neither
+    a digit nor a letter.  One byte means ASCII, where `unicode.IsGraphic` is 0x20–0x7e. -/
+def asciiDropWord (w : List Char) : Bool :=
+  match w with
+  | [c] => c.toNat < 128 && 32 ≤ c.toNat && c.toNat ≤ 126 &&
+           !(('0' ≤ c && c ≤ '9') || ('a' ≤ c && c ≤ 'z') || ('A' ≤ c && c ≤ 'Z'))
+  | _ => false
+
 end Gengo.Camel
